@@ -11,8 +11,8 @@ import glob, json, os, subprocess, sys, time
 
 ROOT = "/verif"
 RELATED = {
-    "C01": ["C07", "C10", "C08"], "C02": ["C04", "C03", "C07"], "C03": ["C15", "C11", "C08"], "C04": ["C02", "C05"], "C05": ["C10", "C01", "C08", "C07"],
-    "C06": ["C12", "C14", "C05"], "C07": ["C01"], "C08": ["C09"], "C09": ["C08"], "C10": ["C05", "C08"], "C11": ["C03", "C06"],
+    "C01": ["C07", "C10", "C08"], "C02": ["C04", "C03", "C07"], "C03": ["C15", "C11", "C08"], "C04": ["C02", "C05", "C11"], "C05": ["C10", "C01", "C08", "C07"],
+    "C06": ["C12", "C14", "C05"], "C07": ["C01", "C08"], "C08": ["C09"], "C09": ["C08", "C03"], "C10": ["C05", "C08"], "C11": ["C03", "C06"],
     "C12": ["C13", "C06"], "C13": ["C12"], "C14": ["C06", "C15"], "C15": ["C14", "C12", "C13"], "C16": ["C18", "C19", "C15", "C17"],
     "C17": ["C18", "C16"], "C18": ["C16", "C02"], "C19": ["C16", "C18"], "C20": [],
 }
